@@ -216,6 +216,13 @@ func runPool(r *vcore.Run, tasks []task, n int, defWatchdog time.Duration) {
 					if err := json.Unmarshal([]byte(l), &o); err != nil {
 						o = outcome{Crash: "bad worker answer: " + err.Error()}
 					}
+					if r != nil {
+						f := t.fam
+						if i := strings.IndexByte(f, '/'); i > 0 {
+							f = f[:i]
+						}
+						r.Count("pool.worker-ms."+f, int(o.Ms))
+					}
 					t.done(o)
 				case <-time.After(wd):
 					w.kill()
